@@ -1,0 +1,74 @@
+//! Verification hooks, compiled only with `--cfg crux_verif`.
+//!
+//! Schedule points let an external controller decide which of several threads calling into
+//! one core runs next. Without an installed controller every hook is a thread-local read and
+//! a branch.
+
+use std::cell::RefCell;
+use std::sync::Arc;
+
+/// Decides what happens at a schedule point. Installed per thread.
+pub trait Controller: Send + Sync {
+    /// The calling thread reached the named point and may be descheduled here.
+    fn point(&self, name: &'static str);
+    /// Like `point`, but the caller is spinning: it should not run again before some other
+    /// thread has made progress.
+    fn yield_point(&self, name: &'static str);
+    /// The calling thread is about to acquire the named (modelled) lock.
+    fn lock_acquire(&self, name: &'static str);
+    /// The calling thread has released the named (modelled) lock.
+    fn lock_release(&self, name: &'static str);
+}
+
+thread_local! {
+    static CONTROLLER: RefCell<Option<Arc<dyn Controller>>> = const { RefCell::new(None) };
+}
+
+fn current() -> Option<Arc<dyn Controller>> {
+    CONTROLLER
+        .try_with(|c| c.try_borrow().ok().and_then(|c| c.clone()))
+        .ok()
+        .flatten()
+}
+
+/// Install (or remove) the controller for the calling thread.
+pub fn set_controller(controller: Option<Arc<dyn Controller>>) {
+    CONTROLLER.with(|c| *c.borrow_mut() = controller);
+}
+
+pub fn point(name: &'static str) {
+    if let Some(c) = current() {
+        c.point(name);
+    }
+}
+
+pub fn yield_point(name: &'static str) {
+    if let Some(c) = current() {
+        c.yield_point(name);
+    }
+}
+
+/// Declared *before* a lock guard (so it is dropped after it): makes acquisition and release
+/// of that lock visible to the controller.
+pub struct LockScope {
+    name: &'static str,
+    controller: Option<Arc<dyn Controller>>,
+}
+
+impl LockScope {
+    pub fn new(name: &'static str) -> Self {
+        let controller = current();
+        if let Some(c) = &controller {
+            c.lock_acquire(name);
+        }
+        Self { name, controller }
+    }
+}
+
+impl Drop for LockScope {
+    fn drop(&mut self) {
+        if let Some(c) = &self.controller {
+            c.lock_release(self.name);
+        }
+    }
+}
